@@ -242,4 +242,102 @@ theorem prefix_detect (r : Nat) (hr : r = 2 ∨ r = 8 ∨ r = 10 ∨ r = 16) (ds
     simp [key 98 (by omega), key 111 (by omega), key 120 (by omega)]
   · simp [radixPrefix, startsWith2]
 
+/-! ### raw strings -/
+
+/-- a byte that may stand for itself inside a string: TAB or printable ASCII other than `"` and `\` -/
+def isRawStrByte (b : UInt8) : Bool :=
+  b.toNat == 9 || (decide (32 ≤ b.toNat) && decide (b.toNat ≤ 126) && b.toNat != 34 && b.toNat != 92)
+
+theorem punct_quote : punct 34 = none := by decide
+
+theorem doNext_string (s : State) (b0 : UInt8) (tl : Bytes) (hd : s.data = b0 :: tl)
+    (h0 : b0.toNat = 34) : doNext s = lexString s := by
+  unfold doNext
+  have e0 : s.data[0]? = some b0 := by rw [hd]; rfl
+  rw [e0]
+  simp only
+  rw [h0, punct_quote]
+  simp
+
+theorem good_ascii (d : Bytes) (h : ∀ b ∈ d, b.toNat < 128) : Good d := by
+  intro pre b c post hd _
+  rw [isCont_false_iff]
+  have := h c (by rw [hd]; simp)
+  omega
+
+/-- the string arm on a string without escapes: the payload is the text between the quotes -/
+theorem lexString_raw (body : Bytes) (hb : ∀ b ∈ body, isRawStrByte b = true) (l c : Nat) :
+    lexString ⟨34 :: body ++ [34], false, l, c⟩ =
+      .tok ⟨l, c, .str body⟩ ⟨[], false, l, c + (body.length + 2)⟩ := by
+  have hbody : ∀ b ∈ body, b.toNat < 128 ∧ b.toNat ≠ 10 ∧ isStrStop b = false := by
+    intro b hx
+    have := hb b hx
+    simp [isRawStrByte] at this
+    simp [isStrStop]
+    omega
+  have hq : isCont (34 : UInt8) = false := by decide
+  have hnc : ∀ b, (body ++ [34]).head? = some b → isCont b = false := by
+    intro b hx
+    cases body with
+    | nil => simp at hx; subst hx; exact hq
+    | cons a t =>
+      simp at hx; subst hx
+      rw [isCont_false_iff]; have := (hbody a (by simp)).1; omega
+  have hall : ∀ b ∈ (34 : UInt8) :: body ++ [34], b.toNat < 128 ∧ b.toNat ≠ 10 := by
+    intro b hx
+    simp at hx
+    rcases hx with rfl | hx | rfl
+    · decide
+    · exact ⟨(hbody b hx).1, (hbody b hx).2.1⟩
+    · decide
+  unfold lexString
+  simp only
+  have hlen : ((34 : UInt8) :: body ++ [34]).length = (body.length + 1) + 1 := by simp
+  have hloop : strLoop (34 :: body ++ [34]) ((34 : UInt8) :: body ++ [34]).length 1 [] = .ok (body.length + 2) [] := by
+    rw [hlen, strLoop]
+    have h1 : sliceFrom ((34 : UInt8) :: body ++ [34]) 1 = some (body ++ [34]) := by
+      have := sliceFrom_split [(34 : UInt8)] (body ++ [34]) hnc
+      simpa using this
+    rw [h1]
+    simp only
+    have h2 : position isStrStop (body ++ [34]) = some body.length :=
+      position_append_of_all body 34 [] (fun x hx => (hbody x hx).2.2) (by decide)
+    rw [h2]
+    simp only
+    have h3 : ((34 : UInt8) :: body ++ [34])[1 + body.length]? = some 34 := by
+      have := getElem?_append_length ((34 : UInt8) :: body) 34 []
+      simp at this ⊢
+      rw [show 1 + body.length = body.length + 1 by omega]
+      simpa using this
+    rw [h3]
+    simp
+    omega
+  rw [hloop]
+  simp only [List.isEmpty_nil, Bool.not_true, Bool.false_eq_true, if_false]
+  have : ¬ body.length + 2 < 1 := by omega
+  simp only [this, if_false]
+  have hsl : slice ((34 : UInt8) :: body ++ [34]) 1 (body.length + 2 - 1) = some body := by
+    have := slice_split [(34 : UInt8)] body [34] hnc (by intro b hx; simp at hx; subst hx; exact hq)
+    rw [show body.length + 2 - 1 = [(34 : UInt8)].length + body.length by simp; omega]
+    simpa using this
+  rw [hsl]
+  simp only
+  unfold emit
+  simp only [Bool.false_eq_true, if_false]
+  have hto : sliceTo ((34 : UInt8) :: body ++ [34]) (body.length + 2) = some (34 :: body ++ [34]) := by
+    have := isBoundary_length ((34 : UInt8) :: body ++ [34])
+    simp [sliceTo] at this ⊢
+    rw [show body.length + 2 = body.length + 1 + 1 by omega]
+    simp [this]
+    exact List.take_of_length_le (by simp)
+  have hfrom : sliceFrom ((34 : UInt8) :: body ++ [34]) (body.length + 2) = some [] := by
+    have := isBoundary_length ((34 : UInt8) :: body ++ [34])
+    simp [sliceFrom] at this ⊢
+    rw [show body.length + 2 = body.length + 1 + 1 by omega]
+    simp [this]
+  rw [hto, hfrom]
+  simp only
+  rw [updatePos_eq (good_ascii _ (fun b hx => (hall b hx).1)), Pos.adv_ascii _ _ hall]
+  simp
+
 end Trion.Lex
